@@ -76,6 +76,14 @@ def run(ctx):
             # the tile is first shown to the library's own footprint filters and area function, as in a filtered sampling
             # run: the grid asked for afterwards is still the grid of this tile
             toastlat.hand_to_consumers(tile, cons)
+            # ... and to the library's other user of this grid, the pixel lookup (for a point inside this tile), before and
+            # between the requests: what the lookup does with the grid must not show in what get_coords reports
+            cvec = psi.centre(n, x, y)
+            clon, clat = (float(v_) for v_ in lattice.vec_to_lonlat(cvec))
+            try:
+                toast.toast_pixel_for_point(n, clat, clon, coordsys=cs)
+            except Exception:  # noqa - the lookup's own correctness is C12's subject
+                pass
             lons, lats = toast.toast_tile_get_coords(tile)
             ctx.count()
             ctx.distinct((csname, (n, x, y), 256))
